@@ -61,9 +61,9 @@ def world_spec(draw, connected=True, prod=False, chainy=False, nunits=(2, 5), ke
             # a ring of k units plus spurs hanging off ring members, declared in drawn order
             k = draw(_int(3, n - 1))
             for i in range(k):
-                edges.append([(i + 1) % k, i, draw(ST_PFX), draw(ST_BOOL)])
+                edges.append([(i + 1) % k, i, draw(ST_PFX), draw(ST_BOOL), draw(_int(0, 9)) < 2])
             for i in range(k, n):
-                edges.append([i, draw(_int(0, k - 1)), draw(ST_PFX), draw(ST_BOOL)])
+                edges.append([i, draw(_int(0, k - 1)), draw(ST_PFX), draw(ST_BOOL), draw(_int(0, 9)) < 2])
             from .convgen import shuffle
 
             edges = shuffle(draw, edges)
@@ -72,12 +72,12 @@ def world_spec(draw, connected=True, prod=False, chainy=False, nunits=(2, 5), ke
         for i in range(1, n):
             if connected or draw(_int(0, 9)) < keep:
                 parent = i - 1 if (chainy and draw(ST_BOOL)) else draw(_int(0, i - 1))
-                edges.append([i, parent, draw(ST_PFX), draw(ST_BOOL)])
+                edges.append([i, parent, draw(ST_PFX), draw(ST_BOOL), draw(_int(0, 9)) < 2])
         for _ in range(draw(_int(0, 3))):
             i = draw(_int(0, n - 1))
             j = draw(_int(0, n - 1))
             if i != j:
-                edges.append([i, j, draw(ST_PFX), draw(ST_BOOL)])
+                edges.append([i, j, draw(ST_PFX), draw(ST_BOOL), draw(_int(0, 9)) < 2])
         fams.append({"dim": dim, "sizes": sizes, "edges": edges})
     ext = []
     n0 = len(fams[0]["sizes"])
@@ -158,8 +158,10 @@ class SynWorld:
                 self.size[name] = Fraction(n, d)
         for f in spec["fams"]:
             tag = f["dim"][0].upper()
-            for i, j, p, flip in f["edges"]:
-                self.declare(f"{tag}{i}", [[p, f"{tag}{j}", 1]], flip)
+            for i, j, p, flip, *rest in f["edges"]:
+                # an optional fifth element: the defined unit is written under a prefix,
+                # (kilo * a).equals(...)
+                self.declare(f"{tag}{i}", [[p, f"{tag}{j}", 1]], flip, lhs_prefixed=bool(rest and rest[0]))
         tag0 = spec["fams"][0]["dim"][0].upper()
         dim0 = m.Dimension._by_name[spec["fams"][0]["dim"]]
         for x, e in enumerate(spec["ext"]):
@@ -200,10 +202,10 @@ class SynWorld:
             s *= (self.prefix_value(p) * self.size[u]) ** e
         return s
 
-    def declare(self, a: str, rhs_terms, flip: bool, force=False, factor=None) -> None:
+    def declare(self, a: str, rhs_terms, flip: bool, force=False, factor=None, lhs_prefixed=False) -> None:
         """a.equals(mag * rhs), or (flip, single plain rhs unit only) rhs.equals(mag * a)"""
         if not self.declare_now and not force:
-            self.plan.append((a, rhs_terms, flip))
+            self.plan.append((a, rhs_terms, flip, lhs_prefixed))
             return
         if factor is not None:
             # a re-declaration with another ratio: the unit a changes its size
@@ -213,7 +215,7 @@ class SynWorld:
         dec = bool(self.spec.get("decimal_ratios"))
         single_plain = len(rhs_terms) == 1 and rhs_terms[0][0] == "" and rhs_terms[0][2] == 1
         lhs, lhs_factor = self.units[a], Fraction(1)
-        if self.spec.get("lhs_prefix") and (self.declared % 3 == 1):
+        if lhs_prefixed or (self.spec.get("lhs_prefix") and (self.declared % 3 == 1)):
             # the unit being defined is written with a prefix:  (kilo * a).equals(...)
             lhs, lhs_factor = self.pfx["kilo"] * self.units[a], Fraction(1000)
         if flip and single_plain:
@@ -224,8 +226,8 @@ class SynWorld:
 
 
 def run_plan(sw: "SynWorld", i: int, factor=None) -> None:
-    a, rhs_terms, flip = sw.plan[i]
-    sw.declare(a, rhs_terms, flip, force=True, factor=factor)
+    a, rhs_terms, flip, lp = sw.plan[i]
+    sw.declare(a, rhs_terms, flip, force=True, factor=factor, lhs_prefixed=lp)
 
 
 def valid_spec(spec) -> bool:
@@ -239,7 +241,9 @@ def valid_spec(spec) -> bool:
             for s in f["sizes"]:
                 if not (isinstance(s[0], int) and isinstance(s[1], int) and s[0] > 0 and s[1] > 0):
                     return False
-            for i, j, p, flip in f["edges"]:
+            for i, j, p, flip, *rest in f["edges"]:
+                if rest and not isinstance(rest[0], bool):
+                    return False
                 if not (0 <= i < n and 0 <= j < n and i != j and p in PFX and isinstance(flip, bool)):
                     return False
         n0 = len(spec["fams"][0]["sizes"])
